@@ -43,7 +43,55 @@ LedgerClause(rec) ==
               Owed(rec.post, d) = (IF d \in DOMAIN rec.ledger THEN rec.ledger[d] ELSE 0), "C01.ledger")
     ELSE {}
 
+(* Vacuity guard: how often the situations the clauses talk about actually occurred in the   *)
+(* judged records.  Counted in TLC registers (the judge runs with one worker) and printed     *)
+(* with the final verdict; the checks put the counts into their evidence.                     *)
+TagNames == <<"match_accepted", "match_at_improved_price", "match_fee_rounding_tie", "match_closes_bid",
+              "match_closes_ask", "match_convertible_ask", "match_with_ask_fee", "match_with_bid_fee",
+              "reversal_partial", "reversal_full", "reversal_returns_fee", "approve_accepted",
+              "create_accepted", "escrow_by_marker_pull", "refused_unauthorized_sender", "modify_accepted",
+              "migrate_accepted", "migrate_converts_old_bids", "query_answered", "query_refused", "exit_probe",
+              "payout_by_marker_transfer", "request_refused">>
+
+TagsOf(rec) ==
+  LET req == rec.req  resp == rec.resp  pre == rec.pre  post == rec.post
+      ok == resp.ok
+      m == ok /\ req.kind = "execute_match" /\ req.ask_id \in DOMAIN pre.asks /\ req.bid_id \in DOMAIN pre.bids
+      b == pre.bids[req.bid_id]
+      a == pre.asks[req.ask_id]
+      rev == ok /\ req.kind \in RevAskKinds \cup RevBidKinds
+  IN  (IF m THEN {"match_accepted"} ELSE {})
+ \cup (IF m /\ req.price.n < b.price.n THEN {"match_at_improved_price"} ELSE {})
+ \cup (IF m /\ b.fee.some /\ Cardinality(ProRataSet(b.fee.amt, RemQ(b) - Times(req.price, req.size), b.qamt)) > 1
+       THEN {"match_fee_rounding_tie"} ELSE {})
+ \cup (IF m /\ req.bid_id \notin DOMAIN post.bids THEN {"match_closes_bid"} ELSE {})
+ \cup (IF m /\ req.ask_id \notin DOMAIN post.asks THEN {"match_closes_ask"} ELSE {})
+ \cup (IF m /\ a.class = "ready" THEN {"match_convertible_ask"} ELSE {})
+ \cup (IF m /\ "ask_fee" \in DOMAIN resp.attrs /\ resp.attrs["ask_fee"] > 0 THEN {"match_with_ask_fee"} ELSE {})
+ \cup (IF m /\ "bid_fee" \in DOMAIN resp.attrs /\ resp.attrs["bid_fee"] > 0 THEN {"match_with_bid_fee"} ELSE {})
+ \cup (IF rev /\ PartialGiven(req) THEN {"reversal_partial"} ELSE {})
+ \cup (IF rev /\ ~PartialGiven(req) THEN {"reversal_full"} ELSE {})
+ \cup (IF rev /\ req.kind \in RevBidKinds /\ Len(resp.msgs) > 1 THEN {"reversal_returns_fee"} ELSE {})
+ \cup (IF ok /\ req.kind = "approve_ask" THEN {"approve_accepted"} ELSE {})
+ \cup (IF ok /\ req.kind \in {"create_ask", "create_bid"} THEN {"create_accepted"} ELSE {})
+ \cup (IF ok /\ req.kind \in {"create_ask", "create_bid", "approve_ask"} /\ resp.msgs # <<>> THEN {"escrow_by_marker_pull"} ELSE {})
+ \cup (IF ~ok /\ req.kind \in {"execute_match", "expire_ask", "expire_bid", "reject_ask", "reject_bid", "modify_contract"}
+          /\ pre.cfg.set /\ req.sender \notin Range(pre.cfg.executors) THEN {"refused_unauthorized_sender"} ELSE {})
+ \cup (IF ok /\ req.kind = "modify_contract" THEN {"modify_accepted"} ELSE {})
+ \cup (IF ok /\ req.kind = "migrate" THEN {"migrate_accepted"} ELSE {})
+ \cup (IF ok /\ req.kind = "migrate" /\ \E k \in DOMAIN pre.bids : pre.bids[k].fmt = "v2" /\ k \in DOMAIN post.bids /\ post.bids[k].fmt = "v3"
+       THEN {"migrate_converts_old_bids"} ELSE {})
+ \cup (IF ok /\ IsQuery(req) THEN {"query_answered"} ELSE {})
+ \cup (IF ~ok /\ IsQuery(req) THEN {"query_refused"} ELSE {})
+ \cup (IF rec.probe /\ ~IsQuery(req) THEN {"exit_probe"} ELSE {})
+ \cup (IF ok /\ \E i \in DOMAIN resp.msgs : resp.msgs[i].kind = "marker" /\ resp.msgs[i].from = Contract THEN {"payout_by_marker_transfer"} ELSE {})
+ \cup (IF ~ok THEN {"request_refused"} ELSE {})
+
+Count(rec) ==
+  \A i \in DOMAIN TagNames : (TagNames[i] \in TagsOf(rec)) => TLCSet(i, TLCGet(i) + 1)
+
 TraceInit ==
+    /\ \A i \in DOMAIN TagNames : TLCSet(i, 0)
     /\ l = 1
     /\ st = EmptyState
     /\ cenv = [marker |-> <<>>, attrs |-> <<>>]
@@ -71,7 +119,8 @@ Judge(rec) ==
            \cup (IF chained /\ ~rec.probe THEN If(rec.pre = st, "CHAIN.broken") ELSE {})
            \cup (IF rec.chained /\ ~rec.probe /\ care THEN If(shNext = ShadowOf(rec.post), "C17.shadow") ELSE {})
            \cup (IF rec.chained /\ ~rec.probe /\ care THEN LedgerClause(rec) ELSE {})
-    IN /\ (v # {} => PrintT(ToJson([judge |-> "viol", line |-> l, seq |-> rec.seq, src |-> rec.src, viol |-> v])))
+    IN /\ Count(rec)
+       /\ (v # {} => PrintT(ToJson([judge |-> "viol", line |-> l, seq |-> rec.seq, src |-> rec.src, viol |-> v])))
        /\ st' = (IF rec.probe THEN st ELSE rec.post)
        /\ cenv' = rec.env
        /\ act' = [req |-> rec.req, outs |-> {}, resp |-> rec.resp]
@@ -86,6 +135,7 @@ TraceSpec == TraceInit /\ [][TraceNext]_tvars
 \* every line was consumed
 TraceDone ==
     LET n == TLCGet("stats").diameter - 1 IN
-    /\ PrintT(ToJson([judge |-> "done", consumed |-> n, lines |-> Len(Log)]))
+    /\ PrintT(ToJson([judge |-> "done", consumed |-> n, lines |-> Len(Log),
+                       exercised |-> [i \in DOMAIN TagNames |-> <<TagNames[i], TLCGet(i)>>]]))
     /\ n = Len(Log)
 =============================================================================
